@@ -48,6 +48,10 @@ def run(ctx) -> None:
     ctx.reuse("C09.tip-mask", c10.int_map)
     ctx.reuse("C09.tip-mask", c10.aggregate_records)
     ctx.reuse("C09.tip-mask", c10.any_rules)
+    # distribute() is a record-appending method too: the R record carries distribute's own arguments
+    from . import c01
+
+    ctx.reuse("C09.slots", c01.pair_distribute, "C01.pair-distribute")
     ctx.guard("C09.diti-switch", diti_switch)
     ctx.guard("C09.modes", modes)
 
@@ -316,6 +320,28 @@ def r_slots(ctx) -> None:
             elif seq is not None:
                 detail = f"the exclusion list is `{show(inner)[:70]}`: it must be sorted as numbers before being converted to text (a text sort orders 10 before 9)"
     ctx.rep.check(ok, rule, f"{f.qualname}/R-exclusions", "exclusion tail = ';' + ';'.join(str(n) for n in sorted(numbers)), empty when nothing is excluded", detail, where=w)
+    # ... and the tail is left empty only when the list is empty (one excluded well is a list of length 1)
+    if ex is not None and isinstance(ex.expr, ast.Name):
+        for d in sorted(fv.cfg.reaching()[cs.node].get(ex.expr.id, ())):
+            dn = fv.cfg.nodes[d]
+            if not (dn.kind == "stmt" and isinstance(dn.ast, ast.Assign) and isinstance(dn.ast.value, ast.Constant) and dn.ast.value.value == ""):
+                continue
+            conds = fv.atoms_at(d, skip_raising=True)
+            empty_ok = False
+            shown = ""
+            for r, pol, br in conds:
+                cm = to_cmp(r, pol)
+                lens = [x for x in ast.walk(r) if isinstance(x, ast.Call) and call_fname(x) == "len"]
+                if cm is not None and len(lens) == 1:
+                    L = Poly.symbol(lens[0])
+                    shown = cm.pretty()
+                    if cm in (Cmp(-L, ">="), Cmp(L, "=="), Cmp(Poly.const(1) - L, ">")):
+                        empty_ok = True
+                elif isinstance(r, ast.Name) and not pol:
+                    empty_ok = True
+            ctx.rep.check(empty_ok, rule, f"{f.qualname}/R-exclusions-empty", "the exclusion tail is empty only for an empty exclusion list",
+                          f"the exclusion tail is left empty under `{shown or 'an unrecognised condition'}`, which is not 'no well is excluded': a non-empty exclusion list is dropped "
+                          "from the record and the robot dispenses into wells that were excluded", where=f.where(dn.ast))
     # excluded wells must lie in the destination range; direction must be one of the two literals
     ok_sub = ok_dir = False
     for term, n, cls in _raising_terms_all(fv, cs.node):
